@@ -112,13 +112,19 @@ def main():
             elif op == "sasview":
                 from sasmodels.sasview_model import _make_standard_model
                 name = step["model"]
-                if name not in svm or step.get("fresh"):
-                    svm[name] = _make_standard_model(name)(*step.get("mult", []))
-                sm = svm[name]
+                tgt = step.get("target", "a")
+                if (name, "a") not in svm or step.get("fresh"):
+                    svm[(name, "a")] = _make_standard_model(name)(*step.get("mult", []))
                 if step.get("clone"):
-                    sm = svm[name] = sm.clone()
-                for k_, v in step["pars"].items():
-                    sm.setParam(k_, v)
+                    # the clone becomes object "b"; the original stays alive as "a"
+                    svm[(name, "b")] = svm[(name, "a")].clone()
+                if (name, tgt) not in svm:
+                    tgt = "a"
+                sm = svm[(name, tgt)]
+                rec["target"] = tgt
+                if not step.get("noset"):
+                    for k_, v in step["pars"].items():
+                        sm.setParam(k_, v)
                 q = qvec(step)
                 copies = [a.copy() for a in q]
                 res = sm.evalDistribution(q[0] if len(q) == 1 else q)
